@@ -76,6 +76,59 @@ def axis_operator_replay(ctx: Ctx, kind: str, engine: str) -> int:
     return n
 
 
+def _index_job(cases):
+    from harness.indexjobs import run_cases
+
+    return run_cases(cases)
+
+
+def index_replay(ctx: Ctx) -> int:
+    """J2O_Index: index-driven primitives at the edges of the index domain (clamping, wrapping, modes)."""
+    ri = run_tlc("MC_Index", "MC_Index.cfg", timeout=900, workers=1)
+    tlc_must_pass(ri, "J2O_Index")
+    ctx.add_tlc(ri, "J2O_Index")
+    if ri.violated:
+        raise MachineryError(f"J2O_Index: {ri.violated} violated (operator definitions inconsistent)")
+    cases = parse_tlc_values(ri.output.splitlines())
+    cleanup_tlc(ri)
+    if not cases:
+        raise MachineryError("J2O_Index emitted no cases")
+    # static configurations (pad / slice) cost one export each: chunked; dynamic ones share one export per template
+    dyn = [c for c in cases if c["c"]["k"] not in ("pad", "slice")]
+    sta = [c for c in cases if c["c"]["k"] in ("pad", "slice")]
+    if ctx.quick:
+        rng = random.Random(ctx.seed)
+        rng.shuffle(sta)
+        sta = sta[:120]
+    tasks = [{"fn": "harness.checks.c01:_index_job", "args": {"cases": dyn}, "timeout": 1500}]
+    tasks += [{"fn": "harness.checks.c01:_index_job", "args": {"cases": sta[i::6]}, "timeout": 1500} for i in range(6) if sta[i::6]]
+    res = run_tasks(tasks, nworkers=7, timeout=3000)
+    n = 0
+    per: dict[str, dict[str, int]] = {}
+    for task, out in res:
+        if out.get("status") != "ok":
+            raise MachineryError(f"index replay worker failed: {str(out)[:700]}")
+        o = out["result"]
+        n += o["n"]
+        if o["spec_vs_jax"]:
+            raise MachineryError("J2O_Index disagrees with JAX eager (specification bug): " + json.dumps(o["spec_vs_jax"][:2])[:600])
+        for k, v in o["per_template"].items():
+            d = per.setdefault(k, {"ok": 0, "bad": 0})
+            d["ok"] += v["ok"]
+            d["bad"] += v["bad"]
+        for ef in o["export_failed"]:
+            ctx.extra.setdefault("index_templates_rejected_at_export", {})[ef["template"]] = ef["error"][:140]
+        for mm in o["mismatch"]:
+            c = mm["case"]
+            ctx.violation({"engine": "index_kernel", "template": mm["template"], "case": c}, f"{mm['template']} on {c}: exported model {mm['ort']} but JAX (and the specification) {mm['jax']}", mm)
+        for c in task["args"]["cases"][:400]:
+            ctx.count(("index", json.dumps(c["c"], sort_keys=True)), nontrivial=True, n=0)
+    ctx.extra["index_cases_run"] = n
+    ctx.extra["index_per_template"] = per
+    ctx.cov["evaluations"] += n
+    return n
+
+
 def run(ctx: Ctx) -> None:
     rng = random.Random(ctx.seed)
     r = run_tlc("MC_OpSem", "MC_OpSem.cfg", timeout=900, workers=1)
@@ -144,6 +197,7 @@ def run(ctx: Ctx) -> None:
             if len(ctx.cov["samples"]) < 9 and rec["draws"] > 1:
                 ctx.sample({"kind": "corpus", "testcase": rec["key"], "input_vectors_compared": rec["draws"], "draws_outside_domain": rec["discarded"], "problems": rec["problems"][:2]})
     axis_operator_replay(ctx, "direct", "axis_direct")
+    index_replay(ctx)
     ctx.extra["corpus_status"] = stats
     ctx.extra["input_vectors_compared"] = draws
     ctx.extra["lattice_draws_outside_domain"] = discarded
